@@ -214,6 +214,16 @@ pub fn c14(c: &mut Checker) {
         return;
     }
     crate::parseback::check(c, &base);
+    // and once more with serde_json::Value as the source: what it hands over is what the message
+    // must be about (an integer above i64::MAX is an integer there too)
+    if c.found.is_empty() && c.scn.doc.json_representable() {
+        let mut bcfg = c.cfg(Script::AllC);
+        bcfg.source = crate::runner::Source::Json;
+        let jbase = c.exec(&bcfg, &|_| false);
+        if !matches!(jbase.outcome, Outcome::Panic(_)) {
+            crate::parseback::check_source(c, &jbase, crate::runner::Source::Json);
+        }
+    }
 }
 
 #[allow(dead_code)]
